@@ -127,12 +127,16 @@ NextOf(S, seq, dir) ==
         C == {i \in S : seq[i].ord = best}
     IN IF TieOrder = "any" THEN C ELSE {MinOf(C)}
 
-\* `for _, h := range startHooks { if startAppCtx.Err() != nil { return nil }`
-LoopCheck ==
-  /\ mpc = "start"
-  /\ IF todoS = {} \/ appDoneAt >= 0 THEN mpc' = "await" /\ cur' = 0
-     ELSE \E h \in NextOf(todoS, starts, "asc") : cur' = h /\ mpc' = "call"
+\* `for _, h := range startHooks { if startAppCtx.Err() != nil { return nil }`: the loop is over / the next hook is h
+LoopEnd ==
+  /\ mpc = "start" /\ (todoS = {} \/ appDoneAt >= 0)
+  /\ mpc' = "await" /\ cur' = 0
   /\ UNCHANGED <<plan, now, todoS, todoP, started, shutAt, first, ret, ctxs, hs, hp, latelog>>
+LoopPick(h) ==
+  /\ mpc = "start" /\ todoS # {} /\ appDoneAt < 0 /\ h \in NextOf(todoS, starts, "asc")
+  /\ cur' = h /\ mpc' = "call"
+  /\ UNCHANGED <<plan, now, todoS, todoP, started, shutAt, first, ret, ctxs, hs, hp, latelog>>
+LoopCheck == LoopEnd \/ \E h \in todoS : LoopPick(h)
 \* case SyncBackground: startHook(backgroundCtx, h, ..) -- the hook function is entered in Run's goroutine
 CallSync ==
   /\ mpc = "call" /\ starts[cur].typ # "bad" /\ ~Async(cur)
